@@ -12,6 +12,7 @@ use crate::error::XlsxError;
 
 use ironcalc_base::types::{Color, Dxf, Theme};
 
+use super::shared_strings::decode_xlsx_escapes;
 use super::styles::parse_dxf;
 use super::util::{get_attribute, get_color};
 
@@ -23,7 +24,7 @@ fn parse_cfvo(node: Node) -> Result<Cfvo, XlsxError> {
         "num" => Ok(Cfvo::Number(val.parse::<f64>().unwrap_or(0.0))),
         "percent" => Ok(Cfvo::Percent(val.parse::<f64>().unwrap_or(0.0))),
         "percentile" => Ok(Cfvo::Percentile(val.parse::<f64>().unwrap_or(0.0))),
-        "formula" => Ok(Cfvo::Formula(val.to_string())),
+        "formula" => Ok(Cfvo::Formula(decode_xlsx_escapes(val))),
         // autoMin/autoMax are Excel 2010+ extensions; treat as Min/Max
         "autoMin" => Ok(Cfvo::Min),
         "autoMax" => Ok(Cfvo::Max),
@@ -482,7 +483,7 @@ pub(super) fn load_conditional_formatting(
                     let formulas: Vec<String> = cf_rule
                         .children()
                         .filter(|n| n.has_tag_name("formula"))
-                        .filter_map(|n| n.text().map(|s| s.to_string()))
+                        .filter_map(|n| n.text().map(decode_xlsx_escapes))
                         .collect();
                     let formula = formulas.first().cloned().unwrap_or_default();
                     let formula2 = formulas.get(1).cloned();
@@ -499,12 +500,13 @@ pub(super) fn load_conditional_formatting(
                     stop_if_true,
                 },
                 "expression" => {
-                    let formula = cf_rule
-                        .children()
-                        .find(|n| n.has_tag_name("formula"))
-                        .and_then(|n| n.text())
-                        .unwrap_or("")
-                        .to_string();
+                    let formula = decode_xlsx_escapes(
+                        cf_rule
+                            .children()
+                            .find(|n| n.has_tag_name("formula"))
+                            .and_then(|n| n.text())
+                            .unwrap_or(""),
+                    );
                     CfRule::Formula {
                         formula: format!("={}", formula),
                         dxf_id,
